@@ -41,6 +41,11 @@ CLAIMS = {
    "decimal printing is injective and contains no '|'), C08_reject_modulo_collision (a string equal to none of the candidate MACs is rejected; 'rejected under another key/fingerprint/far clock' therefore holds modulo the explicit premise that HMAC does not collide on those payloads), "
    "C08_other_hash (unconditional: hex lengths differ), C08_clock_failure. Correspondence: 4 functions x 3 key forms with an interposed clock at interval edges, 0, -1, time_t min/max, intervals incl. divisors of 2^63-1, empty vs absent fingerprint, mangled tokens, errno variants; std::to_string tied at the extremes.",
    note="The rejected-elsewhere half is modulo the stated non-collision premise (checked concretely on every generated case); std::to_string is modelled by Coq's decimal printer and tied by correspondence.", ref="DESIGN.md 7/C08"),
+ "C11": dict(text="Theorems C11_*_exact (get_hmac, pbkdf2 vector and caller-buffer forms, hkdf extract/expand, HOTP, TOTP clock form, time tokens): the verdict model of each entry point - written in the order of the checks in the C++ over argument "
+   "descriptors (nullness, size_t lengths, ints, raw selector values, clock) - accepts exactly on the documented domain, every boundary included; C11_*_signal: each signal is the documented one for a rule actually violated; "
+   "C11_nothrow / C11_never_terminate: the non-throwing PBKDF2 only returns false, nothing terminates; C11_pinned_refuted keeps finding F2 machine-checked. Decoders (total, never throw) are C13-C15. "
+   "Correspondence: ~11k forked calls over the cross product of per-parameter classes incl. selectors -1/3/7/255/INT_MIN/INT_MAX, L = SIZE_MAX-30..SIZE_MAX, iteration and dk_len limits, clock failures; observed verdict incl. terminate / crash / 'false but output written'.",
+   note="Acceptance at limits that cannot be executed (dk_len = (2^32-1)*hLen, message length SIZE_MAX-block) is covered by the theorem and by the reject side of the boundary only.", ref="DESIGN.md 7/C11"),
  "C09": dict(text="Theorem C09_exact: the model of constant_time_equals (loop over max length, implicit zeros, length-mismatch seed) returns true iff the byte lists are equal, for all lengths and contents. "
    "Correspondence: six overloads on length pairs incl. differences of 256k, every single-bit difference position, cancelling differences.",
    note="", ref="DESIGN.md 7/C09"),
